@@ -37,15 +37,27 @@ def gen_date(rng):
   return datetime.date(1700, 1, 1) + datetime.timedelta(days=rng.randint(0, 182000))
 
 
+PY_SPACES = ['\t', '\x0b', '\x0c', '\x1c', '\x1f', '\xa0', '\u2003', '\u3000', '  ']
+
+
+def pad(rng, s):
+  """blanks around a day are stripped by the parser (str.strip: any Unicode white space)"""
+  if rng.random() < 0.1:
+    s = rng.choice(PY_SPACES) + s
+  if rng.random() < 0.1:
+    s = s + rng.choice(PY_SPACES)
+  return s
+
+
 def gen_entry(rng, anchor):
   """-> (string, (lo, hi) ordinals)"""
   base = anchor + datetime.timedelta(days=rng.randint(-40, 40)) if rng.random() < 0.7 else gen_date(rng)
   if rng.random() < 0.4:
-    return fmt(base), (base.toordinal(), base.toordinal())
+    return pad(rng, fmt(base)), (base.toordinal(), base.toordinal())
   span = rng.choice([0, 1, 2, 5, 30, 31, 45, 70, 366, 400]) if rng.random() < 0.9 else rng.randint(0, 800)
   end = base + datetime.timedelta(days=span)
   sep = rng.choice([' - ', '-', ' -', '- ', '  -  '])
-  return fmt(base) + sep + fmt(end), (base.toordinal(), end.toordinal())
+  return pad(rng, fmt(base)) + sep + pad(rng, fmt(end)), (base.toordinal(), end.toordinal())
 
 
 MALFORMED = [
